@@ -249,14 +249,15 @@ def _case(draw, pid, tier):
         kind = draw(st.sampled_from(
             {
                 "C01": ["solve", "solve", "solve", "gen", "gen", "relabel", "recost"],
-                "C02": ["solve", "solve", "solve", "relabel", "recost"],
-                "C03": ["solve", "solve", "solve", "relabel", "recost"],
-                "C04": ["solve", "solve", "solve", "relabel", "gen", "draw", "recost"],
-                "C05": ["solve", "solve", "solve", "solve", "relabel", "draw", "recost"],
+                "C02": ["solve", "solve", "solve", "relabel", "recost", "resyn"],
+                "C03": ["solve", "solve", "solve", "relabel", "recost", "resyn"],
+                "C04": ["solve", "solve", "solve", "relabel", "gen", "draw", "recost", "resyn"],
+                "C05": ["solve", "solve", "solve", "solve", "relabel", "draw", "recost",
+                        "resyn"],
                 "C08": ["solve", "solve", "gen", "relabel"],
                 "C09": ["solve", "solve", "meta", "meta", "meta", "relabel", "gen", "draw",
-                        "recost"],
-                "C10": ["solve", "solve", "solve", "relabel", "agree", "recost"],
+                        "recost", "resyn"],
+                "C10": ["solve", "solve", "solve", "relabel", "agree", "recost", "resyn"],
             }[pid]
         ))
         if kind == "solve":
@@ -270,6 +271,10 @@ def _case(draw, pid, tier):
             ops.append({"op": "recost", "input": draw(st.integers(0, ninputs - 1)),
                         "which": draw(st.integers(0, 4)),
                         "value": draw(st.sampled_from([0, 1, 2, 3, "inf"]))})
+        elif kind == "resyn":
+            ops.append({"op": "resyn", "input": draw(st.integers(0, ninputs - 1)),
+                        "leaf": draw(st.integers(0, 7)), "bits": draw(st.integers(1, 63)),
+                        "perm": draw(st.integers(0, 5))})
         elif kind == "agree":
             ops.append({"op": "agree", "input": draw(st.integers(0, ninputs - 1)),
                         "order": draw(ORDER)})
@@ -781,6 +786,42 @@ def do_recost(run, slots, op, idx):
     run.probe("recost_in_place")
     run.nontrivial = True
     run.event(idx, "recost", which, value)
+
+
+def do_resyn(run, slots, op, idx):
+    """D1: the caller replaces the synteny of one leaf IN PLACE in the `leaf_syntenies`
+    mapping of the input object it keeps using.  Everything solved afterwards must be a
+    solution of the new problem."""
+    import random
+
+    slot = slots[op["input"] % len(slots)]
+    syn = slot.spec["syn"]
+    if syn is None:
+        return
+    leaves = sorted(syn)
+    leaf = leaves[op["leaf"] % len(leaves)]
+    if slot.spec["root_order"] is not None:
+        fams = list(slot.spec["root_order"])
+    else:
+        fams = sorted(set().union(*map(set, syn.values())))
+    chosen = [f for i, f in enumerate(fams) if op["bits"] % (2 ** len(fams)) >> i & 1]
+    if not chosen:
+        chosen = fams[:1]
+    if slot.spec["root_order"] is None and op["perm"]:
+        random.Random(op["perm"]).shuffle(chosen)  # may make the leaf orders inconsistent
+    if chosen == list(syn[leaf]):
+        return
+    node = next(n for n in slot.obj.object_tree.get_leaves() if n.name == leaf)
+    slot.obj.leaf_syntenies[node] = list(chosen)
+    slot.spec = dict(slot.spec, syn=dict(syn, **{leaf: list(chosen)}))
+    slot.results = {}   # earlier results belong to the old problem
+    slot._ref = {}
+    slot.last_outs = []
+    slot.valid_keys = None
+    slot.dirty.add("resyn")
+    run.probe("resyn_in_place")
+    run.nontrivial = True
+    run.event(idx, "resyn", leaf, chosen)
 
 
 def do_relabel(run, slots, op, idx):
@@ -1295,6 +1336,8 @@ def execute(case, focus=None):
             do_draw(run, slots, op, idx)
         elif kind == "recost":
             do_recost(run, slots, op, idx)
+        elif kind == "resyn":
+            do_resyn(run, slots, op, idx)
         elif kind == "gen":
             do_gen(run, slots, op, idx, regime)
         elif kind == "meta":
@@ -1344,7 +1387,9 @@ def describe(pid):
     }
     return {
         "rule": "Hypothesis-drawn case = 1-2 inputs + history of 1-4 (6) operations: "
-                + texts[pid] + ". Non-trivial: an iteration order was permuted, a fault fired, "
+                + texts[pid] + "; between solves the caller may change a unit cost or a leaf "
+                "synteny in place on the object it keeps using, after which every solve is also "
+                "compared with the same problem built afresh. Non-trivial: an iteration order was permuted, a fault fired, "
                 "two producers were alive at once, or the history has more than one operation; "
                 "distinct = distinct case digest.",
         "real": ["superrec2.compute.*, model.*, utils.* compiled from the working tree (sets "
@@ -1366,10 +1411,12 @@ def describe(pid):
                     "cancelled_midway", "F1_cancel", "F1_throw", "label_internal_renamed"],
             "C02": ["order_permuted", "oracle_compared", "ties_in_all_set", "hgt_inf",
                     "transfer_in_optimum", "sloss_zero", "prescribed_root", "empty_result",
-                    "boundary_of_region", "clock_jump"],
+                    "boundary_of_region", "clock_jump", "recost_in_place", "resyn_in_place"],
             "C03": ["order_permuted", "oracle_compared", "ties_in_all_set", "hgt_inf",
-                    "transfer_in_optimum", "sloss_zero", "boundary_of_region"],
-            "C04": ["order_permuted", "polytomy_input", "sloss_zero", "transfer_in_optimum"],
+                    "transfer_in_optimum", "sloss_zero", "boundary_of_region",
+                    "recost_in_place", "resyn_in_place"],
+            "C04": ["order_permuted", "polytomy_input", "sloss_zero", "transfer_in_optimum",
+                    "recost_in_place", "resyn_in_place"],
             "C05": ["order_permuted", "oracle_compared", "ties_in_all_set", "rerun_other_order",
                     "any_pick_differs_across_orders"],
             "C08": ["order_permuted", "polytomy_input", "polytomy_oracle", "two_generators_alive",
